@@ -12,10 +12,13 @@
    The five claims of the property, all proved for the model (no `_partial`, no `_refuted`):
      tr_id, tr_comp, tr_structure (shape, types, script), tr_fail_only, keys_exact
    plus the refinement tr_iter_refines that carries them to the algorithm as coded.
-   Descriptor- and policy-level translation (`translate_desc`) is modelled and tied by the runs;
-   no separate theorems are stated for it (it is a composition of the miniscript case). *)
+   Descriptor-level translation (`translate_desc`) is modelled and tied by the runs;
+   no separate theorems are stated for it (it is a composition of the miniscript case).
+   Second part of the file: the policy types (translate_pk, keys, for_each_key, for_any_key) and hash translation
+   (names C20_pol_...), third part: Miniscript::translate_pk_ctx with hash translation (names C20_trh_...). *)
 From Coq Require Import Permutation.
 From Verif Require Import TranslateModel TranslateProofs EqOrdProofs.
+From Verif Require Import TranslatePolModel TranslatePolProofs TranslateHashModel TranslateHashProofs.
 
 (* ---- the algorithm as coded computes the recursive translation: same result, same first error, no panic *)
 Theorem C20_tr_iter_refines : forall f chk m, translate_iter f chk m = translate f chk m.
@@ -118,3 +121,164 @@ Example C20_nonvacuous :
   translate_iter (fun _ k => if N.eqb k 1 then None else Some k) chk m = TErr (TranslatorErr 1) /\
   translate_iter (fun _ k => Some (k + 20)%N) chk m = TOk (MAndOr (MCheck (MPkK 20)) (MCheck (MPkH 21)) (MCheck (MPkK 22))).
 Proof. exact translate_examples. Qed.
+
+(* ==================================================================================================================
+   Policies (policy::Concrete, policy::Semantic) and hash translation.
+   Model (Ms/TranslatePolModel.v): a policy is a `cpol` (Ms/EqOrdPolModel.v: keys are indices, hashes are bytes, Or carries
+   the odds; a semantic policy is one without And / Or, `is_semantic`).  `ptranslate_iter f fh` = translate_pk as coded
+   (loop over the right-to-left post-order, `translated.pop()` per child, translator `f` on keys and `fh` on the four hash
+   kinds, both functions of the call index); `ptranslate` = the recursive translation; `pmap g gh` = substitution
+   (specification); `keys_of` / `atoms_of` = the keys / keys and hashes occurring in the policy, left to right;
+   `pkeys`, `pfor_each_key`, `pfor_any_key` = `keys()`, `for_each_key`, `for_any_key` as coded over the pre-order
+   iterator as coded (`ppre_stack`); `pshape` = the policy with every key and hash erased (variants, arities, thresholds,
+   odds, lock values).  Pure translators are `fun _ => fp`, `fun _ => fhp`. *)
+
+(* ---- the algorithm as coded computes the recursive translation; it has no panic and no OuterError *)
+Theorem C20_pol_iter_refines : forall f fh p, ptranslate_iter f fh p = ptranslate f fh p.
+Proof. exact ptranslate_iter_refines. Qed.
+Print Assumptions C20_pol_iter_refines.
+
+Theorem C20_pol_iter_no_panic : forall f fh p s, ptranslate_iter f fh p <> TPanic s.
+Proof. exact ptranslate_iter_no_panic. Qed.
+Print Assumptions C20_pol_iter_no_panic.
+
+Theorem C20_pol_rtl_post_iter_refines : forall p, prtl_post_stack (2 * psize p) [(p, false)] = Some (prtl_post p).
+Proof. exact prtl_post_iter_refines. Qed.
+Print Assumptions C20_pol_rtl_post_iter_refines.
+
+(* ---- tr_id: the identity on keys and hashes yields an equal policy *)
+Theorem C20_pol_tr_id : forall p, ptranslate_iter (fun _ k => Some k) (fun _ _ h => Some h) p = TOk p.
+Proof. exact piter_id. Qed.
+Print Assumptions C20_pol_tr_id.
+
+(* ---- tr_comp: translating by (fp, fhp) and then by (gp, ghp) succeeds exactly when translating by the composition
+        does, and then with the same result (so a failure of either stage is a failure of the composition and vice versa) *)
+Theorem C20_pol_tr_comp : forall fp fhp gp ghp p p2,
+  (exists p1, ptranslate_iter (fun _ => fp) (fun _ => fhp) p = TOk p1 /\
+              ptranslate_iter (fun _ => gp) (fun _ => ghp) p1 = TOk p2) <->
+  ptranslate_iter (fun _ => comp_k fp gp) (fun _ => comp_h fhp ghp) p = TOk p2.
+Proof. exact piter_comp. Qed.
+Print Assumptions C20_pol_tr_comp.
+
+(* ---- tr_fail_only and its converse: the translation succeeds iff the mapping is defined on every key and hash that
+        occurs in the policy, and then it is the substitution; a failure is a TranslatorErr caused by an occurring atom *)
+Theorem C20_pol_tr_ok_iff : forall fp fhp p p',
+  ptranslate_iter (fun _ => fp) (fun _ => fhp) p = TOk p' <->
+  (forall a, In a (atoms_of p) -> atom_ok fp fhp a = true) /\ p' = pmap (total_k fp) (total_h fhp) p.
+Proof. exact piter_ok_iff. Qed.
+Print Assumptions C20_pol_tr_ok_iff.
+
+Theorem C20_pol_tr_fail_only : forall fp fhp p e,
+  ptranslate_iter (fun _ => fp) (fun _ => fhp) p = TErr e ->
+  exists i a, e = TranslatorErr i /\ In a (atoms_of p) /\ atom_ok fp fhp a = false.
+Proof. exact piter_fail_only. Qed.
+Print Assumptions C20_pol_tr_fail_only.
+
+Theorem C20_pol_tr_fails_if : forall fp fhp p a,
+  In a (atoms_of p) -> atom_ok fp fhp a = false ->
+  exists i, ptranslate_iter (fun _ => fp) (fun _ => fhp) p = TErr (TranslatorErr i).
+Proof. exact piter_fails_if. Qed.
+Print Assumptions C20_pol_tr_fails_if.
+
+(* ---- tr_structure: same shape (variants, arities, thresholds, odds, lock values), every atom mapped, the keys of the
+        result are the images of the keys, a semantic policy stays semantic *)
+Theorem C20_pol_tr_structure : forall fp fhp p p',
+  ptranslate_iter (fun _ => fp) (fun _ => fhp) p = TOk p' ->
+  p' = pmap (total_k fp) (total_h fhp) p /\ pshape p' = pshape p /\
+  (forall a, In a (atoms_of p) -> atom_ok fp fhp a = true) /\
+  atoms_of p' = map (amap (total_k fp) (total_h fhp)) (atoms_of p) /\
+  keys_of p' = map (total_k fp) (keys_of p) /\ is_semantic p' = is_semantic p.
+Proof. exact piter_structure. Qed.
+Print Assumptions C20_pol_tr_structure.
+
+(* ---- keys_exact: keys() lists exactly keys_of, in order; for_each_key p = forallb p on them, visiting a prefix (all of
+        them when the result is true); for_any_key p = existsb p; the translator is called on a permutation of the atoms *)
+Theorem C20_pol_keys_exact : forall p,
+  pkeys p (psize p) = Some (keys_of p) /\
+  (forall pr, exists visited rest,
+      pfor_each_key pr p (psize p) = Some (forallb pr (keys_of p), visited) /\
+      keys_of p = visited ++ rest /\ (forallb pr (keys_of p) = true -> rest = [])) /\
+  (forall pr, pfor_any_key pr p (psize p) = Some (existsb pr (keys_of p))) /\
+  Permutation (atoms_rtl p) (atoms_of p) /\ keys_of p = akeys (atoms_of p).
+Proof. exact pkeys_exact. Qed.
+Print Assumptions C20_pol_keys_exact.
+
+Theorem C20_pol_translated_keys : forall g gh p, keys_of (pmap g gh p) = map g (keys_of p).
+Proof. exact keys_of_pmap. Qed.
+Print Assumptions C20_pol_translated_keys.
+
+Example C20_pol_nonvacuous :
+  let fk := fun k => if N.eqb k 1 then None else Some (k + 10) in
+  let fhx := fun hk h => match hk with HHash160 => None | _ => Some (0 :: h) end in
+  ptranslate_iter (fun _ k => Some (k + 10)) (fun _ _ h => Some (0 :: h)) ex_pol
+    = TOk (QOr [(3, QAnd [QKey 10; QSha256 [0; 1; 2]]); (1, QThresh 2 [QKey 11; QHash160 [0; 7]; QOlder 5])]) /\
+  ptranslate_iter (fun _ => fk) (fun _ _ h => Some h) ex_pol = TErr (TranslatorErr 1) /\
+  ptranslate_iter (fun _ k => Some k) (fun _ => fhx) ex_pol = TErr (TranslatorErr 0) /\
+  ptranslate_iter (fun n k => if N.eqb n 3 then None else Some k) (fun _ _ h => Some h) ex_pol = TErr (TranslatorErr 3) /\
+  pkeys ex_pol (psize ex_pol) = Some [0; 1] /\
+  pfor_each_key (fun k => negb (N.eqb k 0)) ex_pol (psize ex_pol) = Some (false, [0]) /\
+  atoms_rtl ex_pol = [AHash HHash160 [7]; AKey 1; AHash HSha256 [1; 2]; AKey 0] /\
+  is_semantic ex_pol = false /\ is_semantic (QThresh 1 [QKey 0; QHash256 [3]]) = true.
+Proof. exact ptranslate_examples. Qed.
+
+(* ==================================================================================================================
+   Miniscript::translate_pk_ctx with hash translation (Ms/TranslateHashModel.v): `translate_iter_h f fh chk` is the loop
+   as coded with the four hash arms (`t.sha256(x)?` ...), `translate_h` the recursive translation, `map_atoms g gh` the
+   substitution of keys and hashes, `matoms_pre` the keys and hashes of the term in text order.  The descriptor wrappers
+   (`translate_desc_h`) are tied by the runs. *)
+Theorem C20_trh_iter_refines : forall f fh chk m, translate_iter_h f fh chk m = translate_h f fh chk m.
+Proof. exact translate_iter_h_refines. Qed.
+Print Assumptions C20_trh_iter_refines.
+
+Theorem C20_trh_iter_no_panic : forall f fh chk m s, translate_iter_h f fh chk m <> TPanic s.
+Proof. exact translate_iter_h_no_panic. Qed.
+Print Assumptions C20_trh_iter_no_panic.
+
+Theorem C20_trh_id : forall chk m, chk_ok chk m -> translate_iter_h (fun _ k => Some k) (fun _ _ h => Some h) chk m = TOk m.
+Proof. exact iter_h_id. Qed.
+Print Assumptions C20_trh_id.
+
+Theorem C20_trh_comp : forall chk fp fhp gp ghp m m1 m2,
+  translate_iter_h (fun _ => fp) (fun _ => fhp) chk m = TOk m1 ->
+  translate_iter_h (fun _ => gp) (fun _ => ghp) chk m1 = TOk m2 ->
+  translate_iter_h (fun _ => comp_k fp gp) (fun _ => comp_h fhp ghp) chk m = TOk m2.
+Proof. exact iter_h_comp. Qed.
+Print Assumptions C20_trh_comp.
+
+(* success: the result is the substitution, every key and hash of the term is mapped, every rebuilt node passed from_ast *)
+Theorem C20_trh_structure : forall fp fhp chk m m',
+  translate_iter_h (fun _ => fp) (fun _ => fhp) chk m = TOk m' ->
+  m' = map_atoms (total fp) (total_h fhp) m /\
+  (forall a, In a (matoms_pre m) -> atom_ok fp fhp a = true) /\ chk_ok chk m'.
+Proof. exact iter_h_structure. Qed.
+Print Assumptions C20_trh_structure.
+
+Theorem C20_trh_complete : forall fp fhp chk m,
+  (forall a, In a (matoms_pre m) -> atom_ok fp fhp a = true) -> chk_ok chk (map_atoms (total fp) (total_h fhp) m) ->
+  translate_iter_h (fun _ => fp) (fun _ => fhp) chk m = TOk (map_atoms (total fp) (total_h fhp) m).
+Proof. exact iter_h_complete. Qed.
+Print Assumptions C20_trh_complete.
+
+(* a failure is caused by a key or hash of the term on which the mapping fails, or (everything mapped) by from_ast rejecting
+   a node of the substituted term.  (The finer statement C20_tr_fail_only, which names the rejected sub-term and the error,
+   is proved for the key-only model; here the weaker form is proved.) *)
+Theorem C20_trh_fail_only_partial : forall fp fhp chk m e,
+  translate_iter_h (fun _ => fp) (fun _ => fhp) chk m = TErr e ->
+  (exists a, In a (matoms_pre m) /\ atom_ok fp fhp a = false) \/
+  ((forall a, In a (matoms_pre m) -> atom_ok fp fhp a = true) /\ ~ chk_ok chk (map_atoms (total fp) (total_h fhp) m)).
+Proof. exact iter_h_fail_only. Qed.
+Print Assumptions C20_trh_fail_only_partial.
+
+Theorem C20_trh_call_order : forall m, Permutation (matoms_rtl m) (matoms_pre m).
+Proof. exact matoms_perm. Qed.
+Print Assumptions C20_trh_call_order.
+
+Example C20_trh_nonvacuous :
+  let m := MAndV (MVerify (MSha256 [1; 2])) (MAndOr (MCheck (MPkK 0)) (MHash160 [9]) (MCheck (MPkH 2))) in
+  let chk := from_ast_chk Segwitv0 (fun _ => KCompressed) (fun _ => None) (fun _ => None) in
+  translate_iter_h (fun _ k => Some (k + 20)) (fun _ _ h => Some (7 :: h)) chk m
+    = TOk (MAndV (MVerify (MSha256 [7; 1; 2])) (MAndOr (MCheck (MPkK 20)) (MHash160 [7; 9]) (MCheck (MPkH 22)))) /\
+  translate_iter_h (fun _ k => Some k) (fun _ hk h => match hk with HSha256 => None | _ => Some h end) chk m = TErr (TranslatorErr 3) /\
+  translate_iter_h (fun _ k => Some k) (fun n _ h => if N.eqb n 1 then None else Some h) chk m = TErr (TranslatorErr 1) /\
+  matoms_rtl m = [AKey 2; AHash HHash160 [9]; AKey 0; AHash HSha256 [1; 2]].
+Proof. exact translate_h_examples. Qed.
